@@ -8,11 +8,6 @@ pub fn with_precision(self, precision: usize) -> Rounded<Self>
         // exponent range: the new exponent must be representable (overflow of isize is outside this contract)
         self.repr.exponent as int + ndigits(B as int, self.repr.significand.v()) <= isize::MAX,
         ndigits(B as int, self.repr.significand.v()) <= isize::MAX,
-        // KNOWN FINDING (genuine defect, see report): a source of UNLIMITED precision (context.precision == 0) is not
-        // rounded at all (`0 > precision` is false) although it may hold more than `precision` digits:
-        // FBig::from_repr(Repr::<10>::new(12345, 0), Context::new(0)).with_precision(2) = Exact(12345, prec 2).
-        // Region excluded; delete this line once the code rounds in that case.
-        !(self.context.precision == 0 && precision != 0 && ndigits(B as int, self.repr.significand.v()) > precision),
     ensures
         // C08/C10: ONE correct rounding (mode R) of the exact value to `precision` digits, truthful flag
         round_once(R::md(), B as int, precision, self.repr.significand.v(), self.repr.exponent as int, map_repr(ret)),
@@ -21,8 +16,10 @@ pub fn with_precision(self, precision: usize) -> Rounded<Self>
 {
         let new_context = Context::new(precision);
 
-        // shrink if necessary
-        let repr = if self.context.precision > precision {
+        // shrink if necessary (a finite number of unlimited precision may hold any number of digits)
+        let repr = if self.context.precision > precision
+            || (self.context.precision == 0 && self.repr.is_finite())
+        {
             // it also handles unlimited precision
             new_context.repr_round(self.repr)
         } else {
